@@ -454,3 +454,66 @@ def field_chain(P, fn, o, depth=0):
                 out.append(name or "%s.#%d" % (e["s"], e["f"]))
         return out
     return []
+
+
+def loop_exits_on_failed_lookup(P, fn):
+    """[(branch inst, call inst)]: edges that leave a loop because a lookup (call returning a pointer) yielded NULL, other than the loop's own
+    continuation test in its header (`while ((m = next()) != NULL)`).  Ending a walk over a container because one element has no counterpart drops
+    the elements behind it; the skipping form is `continue`."""
+    out = []
+    for h, body in fn.loops().items():
+        for b in body:
+            if b == h:
+                continue
+            t = fn.bmap[b].term
+            if t.op != "br" or "cond" not in t.d or t["t"] == t.get("f"):
+                continue
+            for truth, succ in ((True, t["t"]), (False, t["f"])):
+                if succ in body:
+                    continue
+                # the successor must really leave the loop (not a latch outside the natural-loop body by construction)
+                c = fn.resolve(t["cond"])
+                if c is None or c.op != "icmp" or c["b"].get("k") != "null":
+                    continue
+                if (c["pred"] == "eq") != truth:
+                    continue
+                v = fn.resolve(resolve_local(fn, strip_casts(fn, c["a"])))
+                if v is not None and v.op == "call" and v.callee in P.functions and P.functions[v.callee].blocks:
+                    # leaving the function with a result ("not found -> return error") is not a truncated walk
+                    if exists_path(fn, fn.bmap[succ].insts[0], lambda x: x.bb.id in body, None, include_start=True) is None and _returns_value_after(fn, succ):
+                        continue
+                    out.append((t, v))
+    return out
+
+
+def _returns_value_after(fn, bid):
+    """the block (and what follows without branching) stores a constant result / returns: an error exit, not a `break`"""
+    b = fn.bmap[bid]
+    for _ in range(4):
+        for i in b.insts:
+            if i.op == "ret":
+                return True
+        if len(b.succ) != 1:
+            return False
+        b = fn.bmap[b.succ[0]]
+    return False
+
+
+def walkall_rule(chk, P, rid, only, floor):
+    chk.rule(rid, "a walk over a container is not ended because one element's lookup failed (a NULL lookup result leaves a loop only as the loop's own continuation "
+                  "test or as an error return): elements behind an unknown one are still processed")
+    n = 0
+    for fn in P.repo_functions():
+        if not fn.blocks or not only(fn):
+            continue
+        nl = len(fn.loops())
+        if not nl:
+            continue
+        n += nl
+        bad = loop_exits_on_failed_lookup(P, fn)
+        for (t, v) in bad:
+            chk.violation(rid, fn.name, "break-on-null:%s" % v.callee, t.loc(), "the loop is left at line %d when %s (line %d) returns NULL: the remaining elements of the container are "
+                          "never looked at, although an element without a counterpart should only be skipped" % (t.line, v.callee, v.line))
+        if not bad:
+            chk.ok(rid, nl, None)
+    chk.floor(rid.lower().replace("-", "_") + "_loops", n, floor)
